@@ -618,7 +618,8 @@ theorem phylip_sequence_roundtrip (al : List St) (s : Str)
     simp [phSeq, hc.1, hc.2, ih (fun x hx => h x (by simp [hx]))]
 
 /-- `_partial`: a fragment (the `re.split` step `splitRun false` of `phTaxon` on the line `phWrite` lays out). The whole file
-is `phylip_relaxed_roundtrip` below (all option pairs, multispace included); what remains without a theorem is the reader's
+is `phylip_relaxed_roundtrip` below (labels without any blank as written; every underscore option pair) and
+`phylip_multispace_roundtrip` (multispace delimiter, labels with single inner blanks); what remains without a theorem is the reader's
 interleaved paging (`phInterleaved`), which the writer never produces.
 Relaxed PHYLIP: the line the writer produces (label padded to the longest label, two spaces, sequence) splits back
 into the label and the sequence, for every label without blanks (`LabelAdmissible` for the relaxed variant) -/
@@ -1091,8 +1092,9 @@ theorem phRead_header (cfg : PhCfg) (n k : Nat) (body : List Str) (hn : n ≠ 0)
 /-- **whole file, relaxed PHYLIP (sequential).**  For every matrix with at least one row, rows of one positive length,
 symbols that denote themselves, labels distinct up to case and admissible for the option pair
 (`spaces_to_underscores` on writing, `underscores_to_spaces` / `multispace_delimiter` on reading — any combination for
-which `RelaxedLabelOk` holds), reading the lines the writer produces gives back the same taxa in the same order with
-the same sequences. -/
+which `RelaxedLabelOk` holds: the label AS WRITTEN has no blank at all — for labels with single inner blanks under
+`multispace_delimiter` see `phylip_multispace_roundtrip`), reading the lines the writer produces gives back the same taxa
+in the same order with the same sequences.  Explicit hypotheses: at least one row, all rows of one positive length. -/
 theorem phylip_relaxed_roundtrip (cfg : PhCfg) (w : Bool) (rows : List (Str × Str))
     (hs : cfg.strict = false) (hi : cfg.interleaved = false) (hne : rows ≠ [])
     (hlen : ∀ r ∈ rows, r.2.length = maxLen (rows.map (·.2))) (hpos : 0 < maxLen (rows.map (·.2)))
@@ -1701,7 +1703,9 @@ theorem parse_symbols_text (S : Str)
 /-- **STANDARD FORMAT, arbitrary symbol strings.**  For every symbol string of a custom standard alphabet (`SymsOk`), the
 FORMAT statement the writer composes (`DATATYPE=STANDARD SYMBOLS="<symbols and gap>" MISSING=?`) is tokenised and parsed
 by `_parse_format_statement` to exactly: type `standard`, the same symbol set, gap `-`, missing `?`, match character
-`.`, not interleaved. -/
+`.`, not interleaved.  This is the PARSING half, for symbols unchanged by upper-casing (`SymsOk`; a lower-case symbol is
+upper-cased by the reader, i.e. content changes — outside the hypothesis).  That every symbol of the rebuilt alphabet
+denotes itself is `standard_symbols_denote_themselves`. -/
 theorem format_standard_roundtrip (syms : Str) (h : SymsOk syms) :
     parseFormatText ("FORMAT ".toList ++ formatOf "standard".toList (specStd syms (some '-') (some '?')) ++ [';'])
       = some ⟨"standard".toList, canonSet (syms ++ ['-']), ['-'], ['?'], ['.'], false⟩ := by
@@ -1723,7 +1727,10 @@ end DendroModel.C09
 
 namespace DendroModel.C09
 example : SymsOk "01AB#".toList := by unfold SymsOk; decide
-/-- `convert`: what one format's reader returns, written in another format and read again, is the original content -/
+/-- `convert`: what one format's reader returns, written in another format and read again, is the original content.
+By construction a corollary: each hop returns the identical `rows` value, so this is the bind-composition of
+`fasta_roundtrip` and `phylip_relaxed_roundtrip` under the union of their hypotheses; the model has no matrix object,
+alphabet identity or construction route, so "however the matrix was built" is NOT expressed here (oracle only). -/
 theorem convert_fasta_phylip_roundtrip (cfg : PhCfg) (w : Bool) (rows : List (Str × Str))
     (hs : cfg.strict = false) (hi : cfg.interleaved = false) (hne : rows ≠ [])
     (hlen : ∀ r ∈ rows, r.2.length = maxLen (rows.map (·.2))) (hpos : 0 < maxLen (rows.map (·.2)))
@@ -1766,7 +1773,8 @@ theorem normM_symM (rows : List (Str × Str)) : normM (symM rows) = symM rows :=
 
 /-- **conversion chain NEXUS → PHYLIP → FASTA.**  A symbol matrix written as NEXUS, read, written as relaxed PHYLIP,
 read, written as FASTA and read is the matrix it started as (each hop under the admissibility conditions of its
-format: the conversion "never changes its content"). -/
+format: the conversion "never changes its content").  A corollary by composition, for symbol-only rows (`symM`), one
+shared alphabet (`pcfg.al = ncfg.al`), equal-length non-empty rows, wrap=True; construction routes are not modelled. -/
 theorem convert_nexus_phylip_fasta_roundtrip (ncfg : NxCfg) (pcfg : PhCfg) (w : Bool) (rows : List (Str × Str))
     (hal : pcfg.al = ncfg.al) (hni : ncfg.interleave = false) (hnc : ncfg.nchar = maxLen (rows.map (·.2)))
     (hnt : ncfg.ntax = 0 ∨ rows.length ≤ ncfg.ntax)
@@ -1868,7 +1876,9 @@ theorem matchchar_fold (cfg : RCfg) (f : List Cell) (mc : Char) (hfirst : cfg.fi
       simp
 
 /-- **MATCHCHAR.**  A row in which any cells are replaced by the match character reads as the cells of the first
-sequence at those positions and as the written cells elsewhere (`_read_character_states` with `first_sequence_defined`) -/
+sequence at those positions and as the written cells elsewhere (`_read_character_states` with `first_sequence_defined`).
+Row level: the first sequence is GIVEN (`cfg.first = some f`); the statement is not lifted to `nxStep`/`nxRead`, where
+`first` is looked up in the accumulator — match characters in whole matrices are compared with the code only. -/
 theorem matchchar_row_roundtrip (cfg : RCfg) (f : List Cell) (mc : Char) (items : List (Option Cell))
     (hfirst : cfg.first = some f) (hmc : cfg.matchChars.contains mc = true)
     (hmw : isWs mc = false) (hm1 : mc ≠ '{') (hm2 : mc ≠ '(') (hm3 : mc ≠ ';')
@@ -1881,8 +1891,8 @@ theorem matchchar_row_roundtrip (cfg : RCfg) (f : List Cell) (mc : Char) (items 
 
 /-- **interleaved NEXUS, one line.**  A further chunk of a row that already has `cur` cells is appended to it.
 `_partial`: this is the step of the interleaved reader (any row, any earlier content, any chunk that fits NCHAR); the
-fold over all lines of all pages — "the pages of a matrix read back as the matrix" — is not proved (interleaved sources
-are compared with the code on every such case). -/
+fold over all lines of all pages is `nexus_interleaved_matrix_roundtrip` below (which also covers the first chunk of a
+row, `findRow = some none`, through `nexus_chunk_step`). -/
 theorem nexus_interleaved_roundtrip_partial (cfg : NxCfg) (acc : Acc) (first : Option Str) (label : Str) (cur cells : List Cell)
     (hk : findRow acc label = some (some cur)) (hi : cfg.interleave = true)
     (hok : ∀ c ∈ cells, CellOk cfg.al cfg.matchChars c) (hlen : cur.length + cells.length ≤ cfg.nchar) :
@@ -1899,3 +1909,419 @@ example : readStates ⟨mkStates dna, ['.'], some [.sym 'A', .sym 'C', .sym 'G']
 
 end DendroModel.C09
 
+/-! ## relaxed PHYLIP, multispace delimiter: labels with inner blanks -/
+
+namespace DendroModel.C09
+open DendroModel.C09.Aux DendroModel.Alphabets
+
+/-- no two adjacent blanks and no blank at the end (so the first run of two or more blanks of a written line is the
+separator the writer put after the label) -/
+def noDbl : Str → Bool
+  | [] => true
+  | [c] => !isBlank c
+  | c :: d :: r => (!isBlank c || !isBlank d) && noDbl (d :: r)
+
+theorem splitRun_multispace (wl rest : Str) (h : noDbl wl = true) :
+    splitRun true (wl ++ ' ' :: ' ' :: rest) = some (wl, rest.dropWhile isBlank) := by
+  induction wl with
+  | nil => simp [splitRun, isBlank, List.dropWhile]
+  | cons c cs ih =>
+    cases cs with
+    | nil =>
+      have hc : isBlank c = false := by simpa [noDbl] using h
+      have hb : isBlank ' ' = true := by decide
+      simp [splitRun, hc, hb, List.dropWhile]
+    | cons d r =>
+      simp only [noDbl, Bool.and_eq_true, Bool.or_eq_true, Bool.not_eq_true'] at h
+      have ih' := ih h.2
+      simp only [List.cons_append] at ih' ⊢
+      rw [splitRun]
+      rcases h.1 with hc | hd
+      · simp [hc, ih']
+      · simp [hd, ih']
+
+/-- label admissible for relaxed PHYLIP read with `multispace_delimiter=True`: as written it is non-empty, its only white
+space is single inner blanks (no tab, no two adjacent blanks, none at either end), and the reader's underscore option
+maps it back -/
+def MultispaceLabelOk (w r : Bool) (l : Str) : Prop :=
+  wlab w l ≠ [] ∧ (∀ c ∈ wlab w l, isWs c = true → c = ' ') ∧ noDbl (wlab w l) = true ∧
+  ((wlab w l).head?.map isWs).getD false = false ∧ ((wlab w l).getLast?.map isWs).getD false = false ∧
+  rlab r (wlab w l) = l
+
+theorem phTaxon_multispace (cfg : PhCfg) (hs : cfg.strict = false) (hm : cfg.multispace = true) (w : Bool) (width : Nat)
+    (l seq : Str) (hl : MultispaceLabelOk w cfg.underscoresToSpaces l) (hq : (seq.head?.map isBlank).getD false = false)
+    (st : PhSt) (hf : phFind st.rows l = none) (hc : st.processed + 1 ≤ st.ntax) :
+    phTaxon cfg st (ljust width (wlab w l) ++ [' ', ' '] ++ seq)
+      = .ok ({ st with rows := st.rows ++ [(l, [])], processed := st.processed + 1 }, l, seq) := by
+  obtain ⟨h2, _, hd, h4, h5, h3⟩ := hl
+  have hsp := splitRun_multispace (wlab w l) (List.replicate (width - (wlab w l).length) ' ' ++ seq) hd
+  rw [dropWhile_replicate_blank _ _ hq] at hsp
+  have hstrip : strip (wlab w l) = wlab w l := strip_id _ h4 h5
+  have hr : (if cfg.underscoresToSpaces = true then u2s (wlab w l) else wlab w l) = l := by
+    simpa [rlab] using h3
+  have hc' : ¬ (st.processed + 1 > st.ntax) := by omega
+  unfold phTaxon
+  simp only [hs, hm, ljust_line, hsp]
+  simp [hstrip, h2, hr, hf, hc']
+
+/-- **whole file, relaxed PHYLIP read with `multispace_delimiter=True`.**  Labels may contain single inner blanks
+(`MultispaceLabelOk`): the first run of two or more blanks of each line is the separator the writer wrote. -/
+theorem phylip_multispace_roundtrip (cfg : PhCfg) (w : Bool) (rows : List (Str × Str))
+    (hs : cfg.strict = false) (hm : cfg.multispace = true) (hi : cfg.interleaved = false) (hne : rows ≠ [])
+    (hlen : ∀ r ∈ rows, r.2.length = maxLen (rows.map (·.2))) (hpos : 0 < maxLen (rows.map (·.2)))
+    (hnd : (rows.map (fun r => lower r.1)).Nodup)
+    (hlab : ∀ r ∈ rows, MultispaceLabelOk w cfg.underscoresToSpaces r.1) (hseq : ∀ r ∈ rows, SeqOk cfg.al r.2) :
+    phRead cfg (phWrite false w rows ++ [[]]) = .ok rows := by
+  let ml := maxLen (rows.map (fun r => wlab w r.1))
+  let mk : Str × Str → Str := fun r => ljust ml (wlab w r.1) ++ [' ', ' '] ++ r.2
+  have hw : phWrite false w rows ++ [[]]
+      = (natStr rows.length ++ [' '] ++ natStr (maxLen (rows.map (·.2)))) :: (rows.map mk ++ [[]]) := by
+    simp [phWrite, mk, ml, wlab, Function.comp_def]
+  have hrl : rows.length ≠ 0 := by cases rows with
+    | nil => exact absurd rfl hne
+    | cons _ _ => simp
+  rw [hw, phRead_header cfg _ _ _ hrl (by omega) (by cases rows with
+    | nil => exact absurd rfl hne
+    | cons _ _ => simp)]
+  have hnonempty : ∀ r ∈ rows, r.2 ≠ [] := by
+    intro r hr h; have := hlen r hr; rw [h] at this; simp at this; omega
+  have hfold := phSequential_rows cfg mk rows.length (maxLen (rows.map (·.2))) rows [] hlen hpos (by simp) (by simpa using hnd)
+    (by
+      intro r hr
+      have hq := hseq r hr
+      have hne' := hnonempty r hr
+      constructor
+      · apply rstrip_id
+        rw [show mk r = (ljust ml (wlab w r.1) ++ [' ', ' ']) ++ r.2 from rfl, getLast?_append_ne _ _ hne']
+        exact last_nows _ (fun c hc => (hq c hc).2)
+      · intro h
+        have := congrArg List.length h
+        simp [mk] at this)
+    (by
+      intro r hr st hf hc
+      exact phTaxon_multispace cfg hs hm w ml r.1 r.2 (hlab r hr)
+        (by cases h : r.2 with
+            | nil => rfl
+            | cons c cs => simp [isBlank_of_isWs ((hseq r hr) c (by simp [h])).2]) st hf hc)
+    (fun r hr => phSeq_ok cfg.al r.2 (hseq r hr))
+  simp only [hi, Bool.false_eq_true, if_false]
+  have h0 : (⟨[], 0, rows.length, maxLen (rows.map (·.2))⟩ : PhSt) = ⟨[], ([] : List (Str × Str)).length, rows.length, maxLen (rows.map (·.2))⟩ := rfl
+  rw [h0, hfold]
+  simp
+
+example : MultispaceLabelOk false false "Homo sapiens 2".toList := by unfold MultispaceLabelOk; decide
+example : (phRead ⟨mkStates dna, false, false, true, false⟩
+    (phWrite false false [("Homo sapiens".toList, "AC-".toList), ("a b c".toList, "?NR".toList)] ++ [[]])).toOption
+    = some [("Homo sapiens".toList, "AC-".toList), ("a b c".toList, "?NR".toList)] := by decide
+
+end DendroModel.C09
+
+
+/-! ## interleaved NEXUS: all pages -/
+
+namespace DendroModel.C09
+open DendroModel.C09.Aux DendroModel.Alphabets
+
+/-- interleaved layout of a matrix: pages of the given widths; in every page one line per row, in row order, carrying
+the next `w` cells of that row -/
+def pageRows : Matrix → List Nat → List (Str × Str)
+  | _, [] => []
+  | m, w :: ws => m.map (fun r => (r.1, renderCells (r.2.take w))) ++ pageRows (m.map (fun r => (r.1, r.2.drop w))) ws
+
+/-- one line of an interleaved MATRIX, whatever the row holds so far (nothing yet: `none`, or `some cur`) -/
+theorem nexus_chunk_step (cfg : NxCfg) (acc : Acc) (first : Option Str) (label : Str) (o : Option (List Cell))
+    (cells : List Cell) (hk : findRow acc label = some o) (hi : cfg.interleave = true)
+    (hok : ∀ c ∈ cells, CellOk cfg.al cfg.matchChars c) (hlen : (o.getD []).length + cells.length ≤ cfg.nchar) :
+    nxStep cfg (.ok (acc, first)) (label, renderCells cells)
+      = .ok (setRow acc label (o.getD [] ++ cells.map readsAs), some (first.getD label)) := by
+  have hrs := cells_roundtrip ⟨cfg.al, cfg.matchChars, first.bind (fun l => (findRow acc l).bind id), cfg.nchar, (o.getD []).length⟩
+    cells hok hlen
+  cases o with
+  | none => simp [nxStep, hk] at hrs ⊢; simp [hrs, hi]
+  | some cur => simp [nxStep, hk] at hrs ⊢; simp [hrs, hi]
+
+abbrev Tr := Str × Option (List Cell) × List Cell
+
+/-- one page: every row receives its chunk -/
+theorem nexus_page_fold (cfg : NxCfg) (hi : cfg.interleave = true) :
+    ∀ (R : List Tr) (Pre : Acc) (first : Option Str),
+      ((Pre.map (fun p => lower p.1)) ++ R.map (fun t => lower t.1)).Nodup →
+      (∀ t ∈ R, ∀ c ∈ t.2.2, CellOk cfg.al cfg.matchChars c) →
+      (∀ t ∈ R, (t.2.1.getD []).length + t.2.2.length ≤ cfg.nchar) →
+      ∃ f, (R.map (fun t => (t.1, renderCells t.2.2))).foldl (nxStep cfg) (.ok (Pre ++ R.map (fun t => (t.1, t.2.1)), first))
+        = .ok (Pre ++ R.map (fun t => (t.1, some (t.2.1.getD [] ++ t.2.2.map readsAs))), f) := by
+  intro R
+  induction R with
+  | nil => intro Pre first _ _ _; exact ⟨first, by simp⟩
+  | cons t ts ih =>
+    intro Pre first hnd hok hlen
+    have hpre : ∀ p ∈ Pre, (lower p.1 == lower t.1) = false := by
+      intro p hp
+      simp only [List.map_cons] at hnd
+      have := (List.nodup_append.mp hnd).2.2 (lower p.1) (List.mem_map.mpr ⟨p, hp, rfl⟩) (lower t.1) (by simp)
+      simpa using this
+    have hfind : findRow (Pre ++ (t :: ts).map (fun t => (t.1, t.2.1))) t.1 = some t.2.1 := by
+      rw [findRow_append _ _ _ hpre]; simp [findRow]
+    have hstep := nexus_chunk_step cfg _ first t.1 t.2.1 t.2.2 hfind hi (hok t (by simp)) (hlen t (by simp))
+    have hset : setRow (Pre ++ (t :: ts).map (fun t => (t.1, t.2.1))) t.1 (t.2.1.getD [] ++ t.2.2.map readsAs)
+        = (Pre ++ [(t.1, some (t.2.1.getD [] ++ t.2.2.map readsAs))]) ++ ts.map (fun t => (t.1, t.2.1)) := by
+      rw [setRow_append _ _ _ _ hpre]; simp [setRow]
+    obtain ⟨f, hf⟩ := ih (Pre ++ [(t.1, some (t.2.1.getD [] ++ t.2.2.map readsAs))]) (some (first.getD t.1))
+      (by simpa [List.map_append, List.append_assoc] using hnd)
+      (fun x hx => hok x (by simp [hx])) (fun x hx => hlen x (by simp [hx]))
+    refine ⟨f, ?_⟩
+    simp only [List.map_cons, List.foldl_cons] at hf hstep hset ⊢
+    rw [hstep, hset, hf]
+    simp
+
+/-- all pages -/
+theorem nexus_pages_fold (cfg : NxCfg) (hi : cfg.interleave = true) :
+    ∀ (ws : List Nat) (T : List Tr) (first : Option Str),
+      (T.map (fun t => lower t.1)).Nodup →
+      (∀ t ∈ T, ∀ c ∈ t.2.2, CellOk cfg.al cfg.matchChars c) →
+      (∀ t ∈ T, (t.2.1.getD []).length + t.2.2.length ≤ cfg.nchar) →
+      (∀ t ∈ T, t.2.2.length ≤ ws.sum) →
+      ∃ (T' : List Tr) (f : Option Str),
+        (pageRows (T.map (fun t => (t.1, t.2.2))) ws).foldl (nxStep cfg) (.ok (T.map (fun t => (t.1, t.2.1)), first))
+          = .ok (T'.map (fun t => (t.1, t.2.1)), f) ∧
+        T'.map (fun t => (t.1, t.2.1.getD [] ++ t.2.2.map readsAs)) = T.map (fun t => (t.1, t.2.1.getD [] ++ t.2.2.map readsAs)) ∧
+        (∀ t ∈ T', t.2.2 = []) ∧
+        ((ws ≠ [] ∨ ∀ t ∈ T, t.2.1.isSome = true) → ∀ t ∈ T', t.2.1.isSome = true) := by
+  intro ws
+  induction ws with
+  | nil =>
+    intro T first _ _ _ hsum
+    refine ⟨T, first, by simp [pageRows], rfl, ?_, ?_⟩
+    · intro t ht
+      have := hsum t ht
+      simp at this
+      exact this
+    · intro h
+      rcases h with h | h
+      · exact absurd rfl h
+      · exact h
+  | cons w ws ih =>
+    intro T first hnd hok hlen hsum
+    -- the page
+    let R : List Tr := T.map (fun t => (t.1, t.2.1, t.2.2.take w))
+    obtain ⟨f1, hpage⟩ := nexus_page_fold cfg hi R [] first
+      (by simpa [R, Function.comp_def] using hnd)
+      (by intro t ht c hc
+          simp only [R, List.mem_map] at ht
+          obtain ⟨q, hq, rfl⟩ := ht
+          exact hok q hq c (List.mem_of_mem_take hc))
+      (by intro t ht
+          simp only [R, List.mem_map] at ht
+          obtain ⟨q, hq, rfl⟩ := ht
+          have := hlen q hq
+          simp only [List.length_take]
+          omega)
+    let T1 : List Tr := T.map (fun t => (t.1, some (t.2.1.getD [] ++ (t.2.2.take w).map readsAs), t.2.2.drop w))
+    obtain ⟨T', f, h1, h2, h3, h4⟩ := ih T1 f1
+      (by simpa [T1, Function.comp_def] using hnd)
+      (by intro t ht c hc
+          simp only [T1, List.mem_map] at ht
+          obtain ⟨q, hq, rfl⟩ := ht
+          exact hok q hq c (List.mem_of_mem_drop hc))
+      (by intro t ht
+          simp only [T1, List.mem_map] at ht
+          obtain ⟨q, hq, rfl⟩ := ht
+          have := hlen q hq
+          simp only [Option.getD_some, List.length_append, List.length_map, List.length_take, List.length_drop]
+          omega)
+      (by intro t ht
+          simp only [T1, List.mem_map] at ht
+          obtain ⟨q, hq, rfl⟩ := ht
+          have := hsum q hq
+          simp only [List.length_drop, List.sum_cons] at this ⊢
+          omega)
+    refine ⟨T', f, ?_, ?_, h3, ?_⟩
+    · have e1 : (T.map (fun t => (t.1, t.2.2))).map (fun r => (r.1, renderCells (r.2.take w)))
+          = R.map (fun t => (t.1, renderCells t.2.2)) := by simp [R, Function.comp_def]
+      have e2 : (T.map (fun t => (t.1, t.2.2))).map (fun r => (r.1, r.2.drop w)) = T1.map (fun t => (t.1, t.2.2)) := by
+        simp [T1, Function.comp_def]
+      have e3 : T.map (fun t => (t.1, t.2.1)) = [] ++ R.map (fun t => (t.1, t.2.1)) := by simp [R, Function.comp_def]
+      have e4 : ([] : Acc) ++ R.map (fun t => (t.1, some (t.2.1.getD [] ++ t.2.2.map readsAs))) = T1.map (fun t => (t.1, t.2.1)) := by
+        simp [R, T1, Function.comp_def]
+      simp only [pageRows, List.foldl_append]
+      rw [e1, e2, e3, hpage, e4, h1]
+    · rw [h2]
+      simp only [T1, List.map_map, Function.comp_def, Option.getD_some, List.append_assoc, ← List.map_append, List.take_append_drop]
+    · intro _
+      apply h4
+      right
+      intro t ht
+      simp only [T1, List.mem_map] at ht
+      obtain ⟨q, _, rfl⟩ := ht
+      rfl
+
+theorem accRows_all_some (T : List Tr) (h : ∀ t ∈ T, t.2.1.isSome = true) :
+    accRows (T.map (fun t => (t.1, t.2.1))) = T.map (fun t => (t.1, t.2.1.getD [])) := by
+  induction T with
+  | nil => rfl
+  | cons t ts ih =>
+    have ht := h t (by simp)
+    have := ih (fun x hx => h x (by simp [hx]))
+    unfold accRows at this ⊢
+    cases ho : t.2.1 with
+    | none => rw [ho] at ht; cases ht
+    | some x => simp [List.filterMap_cons, ho, this]
+
+/-- **whole matrix, interleaved NEXUS ("interleaving does not matter").**  A matrix laid out in pages of any widths that
+add up to at least the row length — one line per row and page, a TAXA block having listed the labels — is read back under
+`INTERLEAVE` as the same taxa in the same order with the same cells (`normM`), provided at least one page is given. -/
+theorem nexus_interleaved_matrix_roundtrip (cfg : NxCfg) (m : Matrix) (ws : List Nat) (hi : cfg.interleave = true)
+    (hws : ws ≠ []) (hsum : ∀ r ∈ m, r.2.length ≤ ws.sum)
+    (hlab : (m.map (fun r => lower r.1)).Nodup)
+    (hok : ∀ r ∈ m, ∀ c ∈ r.2, CellOk cfg.al cfg.matchChars c)
+    (hlen : ∀ r ∈ m, r.2.length ≤ cfg.nchar) :
+    nxRead cfg (m.map (·.1)) (pageRows m ws) = .ok (normM m) := by
+  let T : List Tr := m.map (fun r => (r.1, none, r.2))
+  obtain ⟨T', f, h1, h2, h3, h4⟩ := nexus_pages_fold cfg hi ws T none
+    (by simpa [T, Function.comp_def] using hlab)
+    (by intro t ht c hc
+        simp only [T, List.mem_map] at ht
+        obtain ⟨q, hq, rfl⟩ := ht
+        exact hok q hq c hc)
+    (by intro t ht
+        simp only [T, List.mem_map] at ht
+        obtain ⟨q, hq, rfl⟩ := ht
+        simpa using hlen q hq)
+    (by intro t ht
+        simp only [T, List.mem_map] at ht
+        obtain ⟨q, hq, rfl⟩ := ht
+        exact hsum q hq)
+  have hT1 : T.map (fun t => (t.1, t.2.2)) = m := by simp [T, Function.comp_def]
+  have hT2 : T.map (fun t => ((t.1, t.2.1) : Str × Option (List Cell))) = (m.map (·.1)).map (fun t => (t, none)) := by
+    simp [T, Function.comp_def]
+  have hsome := h4 (Or.inl hws)
+  unfold nxRead
+  rw [← hT2, ← hT1, h1]
+  simp only
+  rw [accRows_all_some T' hsome]
+  have : T'.map (fun t => (t.1, t.2.1.getD [])) = T'.map (fun t => (t.1, t.2.1.getD [] ++ t.2.2.map readsAs)) := by
+    apply List.map_congr_left
+    intro t ht
+    simp [h3 t ht]
+  rw [this, h2]
+  simp [T, normM, Function.comp_def]
+
+end DendroModel.C09
+
+
+/-! ## custom standard alphabets: every symbol denotes itself -/
+namespace DendroModel.C09.Aux
+theorem lower_upper_stable (d : Char) (h : d.toLower.toUpper = d.toLower) : d.toLower = d := by
+  unfold Char.toLower at h ⊢
+  split
+  · rename_i hd
+    exfalso
+    rw [dif_pos hd] at h
+    unfold Char.toUpper at h
+    have h1 := UInt32.le_iff_toNat_le.mp hd.1
+    have h2 := UInt32.le_iff_toNat_le.mp hd.2
+    simp only [Char.reduceVal, UInt32.reduceToNat] at h1 h2
+    split at h
+    · have := congrArg (fun c : Char => c.val.toNat) h
+      simp only [Char.reduceVal, UInt32.toNat_add, UInt32.toNat_sub, UInt32.reduceToNat] at this
+      omega
+    · rename_i hn
+      apply hn
+      simp only [Char.reduceVal, UInt32.le_iff_toNat_le, UInt32.toNat_add, UInt32.toNat_sub, UInt32.reduceToNat]
+      omega
+  · rfl
+
+theorem lookup_of_unique (al : List St) (c : Char)
+    (huniq : ∀ st ∈ al, (st.sym == some c || st.syns.contains c) = true → st.sym = some c)
+    (hex : ∃ st ∈ al, (st.sym == some c || st.syns.contains c) = true) : lookup al c = some c := by
+  unfold lookup lookupSt
+  cases hf : al.find? (fun st => st.sym == some c || st.syns.contains c) with
+  | none =>
+    obtain ⟨st, hst, hp⟩ := hex
+    have := List.find?_eq_none.mp hf st hst
+    exact absurd hp this
+  | some st =>
+    have hmem := List.mem_of_find?_eq_some hf
+    have hp := List.find?_some hf
+    simp [huniq st hmem hp]
+end DendroModel.C09.Aux
+
+namespace DendroModel.C09
+open DendroModel.C09.Aux DendroModel.Alphabets
+
+/-- **custom standard alphabets, any symbol set.**  In the alphabet `_build_state_alphabet` builds from a non-empty list of
+fundamental symbols that are unchanged by upper-casing (what `SYMBOLS="…"` yields: the reader upper-cases the statement),
+with gap `-` and missing `?`, every symbol, the gap and the missing symbol denote themselves: the implicit case-variant
+synonyms of a case-insensitive alphabet can never capture another symbol. -/
+theorem standard_symbols_denote_themselves (F : List Char) (hne : F ≠ []) (hup : ∀ c ∈ F, c.toUpper = c) :
+    ∀ c ∈ F ++ ['-', '?'], lookup (mkStates (specStd F (some '-') (some '?'))) c = some c := by
+  intro c hc
+  have hupD : ∀ d ∈ F ++ ['-', '?'], d.toUpper = d := by
+    intro d hd
+    simp only [List.mem_append, List.mem_cons, List.mem_nil_iff, or_false] at hd
+    rcases hd with hd | hd | hd
+    · exact hup d hd
+    · subst hd; decide
+    · subst hd; decide
+  have hFe : F.isEmpty = false := by
+    cases F with
+    | nil => exact absurd rfl hne
+    | cons _ _ => rfl
+  have hmem : ∀ st ∈ mkStates (specStd F (some '-') (some '?')),
+      ∃ d ∈ F ++ ['-', '?'], st.sym = some d ∧ st.syns = caseVar false d := by
+    intro st hst
+    simp only [mkStates, specStd, hFe, fundAll, synsOf, Bool.false_eq_true, if_false, Option.toList, List.filter_nil, List.map_nil,
+      List.append_nil, List.mem_append, List.mem_map, List.mem_cons, List.mem_nil_iff, or_false] at hst
+    rcases hst with ⟨d, hd, rfl⟩ | ⟨d, hd, rfl⟩
+    · refine ⟨d, ?_, rfl, rfl⟩
+      rcases hd with hd | hd
+      · simp [hd]
+      · simp [hd]
+    · subst hd
+      exact ⟨'?', by simp, rfl, rfl⟩
+  apply lookup_of_unique
+  · intro st hst hp
+    obtain ⟨d, hd, hs, hy⟩ := hmem st hst
+    rw [hs, hy] at hp
+    rw [hs]
+    simp only [Bool.or_eq_true, beq_iff_eq, Option.some.injEq, List.contains_eq_mem, decide_eq_true_eq] at hp
+    rcases hp with hp | hp
+    · rw [hp]
+    · exfalso
+      simp only [caseVar, Bool.false_eq_true, if_false, List.mem_filter, List.mem_cons, List.mem_nil_iff, or_false,
+        bne_iff_ne, ne_eq] at hp
+      obtain ⟨hcd, hne'⟩ := hp
+      rcases hcd with hcd | hcd
+      · exact hne' (hcd.trans (hupD d hd))
+      · have hcu := hupD c hc
+        rw [hcd] at hcu
+        exact hne' (hcd.trans (lower_upper_stable d hcu))
+  · simp only [mkStates, specStd, hFe, fundAll, synsOf, Bool.false_eq_true, if_false, Option.toList, List.filter_nil, List.map_nil,
+      List.append_nil]
+    simp only [List.mem_append, List.mem_cons, List.mem_nil_iff, or_false] at hc
+    rcases hc with hc | hc | hc
+    · exact ⟨⟨some c, .fund, [c], caseVar false c⟩, by
+        simp only [List.mem_append, List.mem_map, List.mem_cons, List.mem_nil_iff, or_false]
+        exact Or.inl ⟨c, Or.inl hc, rfl⟩, by simp⟩
+    · exact ⟨⟨some c, .fund, [c], caseVar false c⟩, by
+        simp only [List.mem_append, List.mem_map, List.mem_cons, List.mem_nil_iff, or_false]
+        exact Or.inl ⟨c, Or.inr hc, rfl⟩, by simp⟩
+    · subst hc
+      exact ⟨⟨some '?', .ambig, F ++ ['-'], caseVar false '?'⟩, by simp, by simp⟩
+
+example : ∀ c ∈ "AB01".toList ++ ['-', '?'], lookup (mkStates (specStd "AB01".toList (some '-') (some '?'))) c = some c :=
+  standard_symbols_denote_themselves _ (by decide) (by decide)
+
+end DendroModel.C09
+
+namespace DendroModel.C09
+open DendroModel.Alphabets
+/-- a symbol-less cell whose members are NOT in canonical order is admissible and reads back as the sorted member set -/
+example : CellOk (mkStates (specStd ['0', '1', '2'] (some '-') (some '?'))) ['.'] (.multi true ['2', '0']) := by
+  unfold CellOk; decide
+example : readsAs (.multi true ['2', '0']) = .multi true ['0', '2'] := by decide
+/-- interleaved: a 2 x 5 matrix in pages of widths 2, 2, 1 -/
+example : (nxRead ⟨mkStates dna, ['.'], 5, 2, true⟩ ["A".toList, "B".toList]
+    (pageRows [("A".toList, "AC-GT".toList.map Cell.sym), ("B".toList, "NNRY?".toList.map Cell.sym)] [2, 2, 1])).toOption
+    = some [("A".toList, "AC-GT".toList.map Cell.sym), ("B".toList, "NNRY?".toList.map Cell.sym)] := by decide
+end DendroModel.C09
